@@ -126,7 +126,7 @@ def _alarm(signum, frame):
     raise WallClock()
 
 
-def compile_source(src, args=(), name="p0", budget=None, wall=120, codegen=True, keep=True, hygiene=True):
+def compile_source(src, args=(), name="p0", budget=None, wall=45, codegen=True, keep=True, hygiene=True):
     """Compile nmfu source text with command-line args (list of str, without the filename).
 
     Classification (DESIGN 2.1): accepted / rejected (diagnosed error classes, message rendered) /
